@@ -14,7 +14,8 @@ EXTENDS TraceLib, LedgerTable, Integers, FiniteSets
 
 CONSTANTS Mode, KnownC
 
-VARIABLES l, body, final, lock, dlock, total, ainfo, topo, validated, last, prev, val
+VARIABLES l, body, final, lock, dlock, total, ainfo, topo, validated, last, prev, val,
+          tin    \* set of <<t, asset records observed when t was validated and stored>> for stored transactions
 
 L == INSTANCE Ledger WITH Tx <- TxU, TxDef <- TxDefU, Ord <- OrdU, Asset <- AssetU, Cap <- CapU,
                           Genesis <- GenesisU, Info0 <- InfoU, None <- "None", Known <- KnownC
@@ -87,8 +88,13 @@ ODepositOverflow(p, b) ==
       \E t \in b : TxDefU[t].kind = "deposit" /\ TxDefU[t].asset = a /\ t \notin OFinal(p)
           /\ p.total[a] + TxDefU[t].amt >=
                CapU[a] - Sum({u \in b \ {t} : TxDefU[u].kind = "deposit" /\ TxDefU[u].asset = a /\ u \notin OFinal(p)}, L!DepAmt)
+\* The finding needs the asset to have been unregistered when the deposit itself was validated and stored
+\* (possibly as a member of an earlier batch that was refused as a whole): a deposit whose record differs
+\* from a REGISTERED one must be refused by validation.
+TInfo(t, p) == IF \E x \in tin : x[1] = t THEN (CHOOSE x \in tin : x[1] = t)[2] ELSE p.ainfo
 ORecordConflict(p, b) ==
     \E t \in b : TxDefU[t].kind = "deposit" /\ t \notin OFinal(p)
+        /\ TInfo(t, p)[TxDefU[t].asset] = "none"
         /\ \/ p.ainfo[TxDefU[t].asset] \notin {"none", TxDefU[t].info}
            \/ \E u \in b \ {t} : TxDefU[u].kind = "deposit" /\ u \notin OFinal(p)
                                  /\ TxDefU[u].asset = TxDefU[t].asset /\ TxDefU[u].info # TxDefU[t].info
@@ -101,14 +107,14 @@ OC16(e, p) ==
 (* ------------------------------------------------------------------ *)
 Init ==
     /\ l = 1 /\ L!Init
-    /\ prev = [pos |-> <<>>] /\ val = {}
+    /\ prev = [pos |-> <<>>] /\ val = {} /\ tin = {}
 
 Reset ==
     /\ IsEvent("Reset")
     /\ body' = {} /\ final' = {} /\ lock' = [o \in L!AllOuts |-> "None"]
     /\ dlock' = [t \in {u \in TxU : TxDefU[u].kind = "deposit"} |-> "None"]
     /\ total' = GenesisU /\ ainfo' = InfoU /\ topo' = <<>> /\ validated' = {} /\ last' = [op |-> "Init"]
-    /\ prev' = Ev.obs /\ val' = {}
+    /\ prev' = Ev.obs /\ val' = {} /\ tin' = {}
     /\ (Mode = "full" => ObsEqualsModel(Ev.obs))
     /\ (Mode \in {"full", "C17"} => OC17(Ev.obs))
 
@@ -129,6 +135,8 @@ Step ==
     /\ val' = IF Ev.ev = "Validate"
               THEN (IF Ev.res = "ok" THEN val \cup {BSet(Ev)} ELSE val)
               ELSE val \ {BSet(Ev)}
+    /\ tin' = { x \in tin : x[1] \in SeqToSet(Ev.obs.body) }
+                \cup { <<t, prev.ainfo>> : t \in SeqToSet(Ev.obs.body) \ SeqToSet(prev.body) }
 
 \* a second, different snapshot aimed at an occupied position is refused and changes nothing
 Reuse ==
@@ -137,10 +145,10 @@ Reuse ==
           /\ Ev.res # "ok"
           /\ Ev.posafter = Ev.posbefore
           /\ Ev.lookupsame /\ Ev.hashok)
-    /\ UNCHANGED <<lvars, prev, val>>
+    /\ UNCHANGED <<lvars, prev, val, tin>>
 
 Next == Reset \/ Step \/ Reuse
-Spec == Init /\ [][Next]_<<l, lvars, prev, val>>
+Spec == Init /\ [][Next]_<<l, lvars, prev, val, tin>>
 
 HW == HighWaterOf(l)
 Accepted == TraceAcceptedAt
